@@ -16,6 +16,7 @@ from .. import astutil as au
 from ..flow import Domain, Walker, Partitioned
 from ..tables import rule
 from . import analysis
+from ..carriers import local_roles, role
 
 rule("C17.a", "costs_only contract: the flag is honoured, a forwarded result is used as a problem only where costs_only is False, "
               "widenings of the cost vector after the costs_only return are mirrored in it, and no periodic merge follows it",
@@ -74,8 +75,8 @@ def _hstack_parts(e):
     return None, []
 
 
-def _is_cost_carrier(e) -> bool:
-    return (isinstance(e, ast.Name) and e.id == "c") or (isinstance(e, ast.Attribute) and e.attr == "c")
+def _is_cost_carrier(e, roles=None) -> bool:
+    return role(e, roles or {}) == "c"
 
 
 @analysis("costsonly", ["C17.a"])
@@ -91,6 +92,7 @@ def run(ctx):
         abstract = all(isinstance(s, (ast.Pass, ast.Expr)) for s in fn.body)
         if abstract:
             continue
+        fn_roles = local_roles(fn)
         dom = Partitioned(_Unit())
         w = _W(dom)
         forwarded_names, forwarded_containers = set(), set()
@@ -154,9 +156,9 @@ def run(ctx):
         seen_st = set()
         after_stmts = [s_ for s_ in after_false if not (id(s_) in seen_st or seen_st.add(id(s_)))]
         for st in after_stmts:
-            if isinstance(st, ast.Assign) and any(_is_cost_carrier(t) for t in st.targets):
+            if isinstance(st, ast.Assign) and any(_is_cost_carrier(t, fn_roles) for t in st.targets):
                 base, app = _hstack_parts(st.value)
-                if base is not None and _is_cost_carrier(base):
+                if base is not None and _is_cost_carrier(base, fn_roles):
                     after.extend((au.U(x), st) for x in app)
         missing = [(x, st) for x, st in after if x not in in_ret]
         extra = [x for x in in_ret if x not in [a for a, _ in after]]
